@@ -206,6 +206,8 @@ class CallMixin(object):
         for k, v in kw.items():
             if k == "**":
                 bound["kwargs"] = v
+            elif k in c.free:
+                bound[k] = self.adapt(v, c.free[k])      # free variable of a nested function (ghost parameter)
             elif k not in c.params:
                 if "kwargs" in c.params and isinstance(c.params["kwargs"], Map):
                     extra[k] = v            # collected by the callee's **kwargs
@@ -356,6 +358,8 @@ class CallMixin(object):
                             argnode = k.value
             if argnode is None and node is None and m in st.env:
                 argnode = ast.Name(id=m, ctx=ast.Load())        # refinement check: parameters are the environment
+            if argnode is None and m in c.defaults:
+                continue        # argument omitted: the callee mutates its own default / temporary
             if argnode is None:
                 raise OutsideSubset("in/out parameter %s of %s: argument is not a place" % (m, c.qualname))
             sts = self.assign(_as_store(argnode), nv, st, None, inplace=True)
@@ -380,6 +384,10 @@ class CallMixin(object):
         # contract for the nested function?
         if isinstance(fn, ast.FunctionDef) and self.contract is not None:
             c = self.reg.contracts.get((self.module.rel, "%s.<locals>.%s" % (self.contract.qualname, fn.name)))
+            if c is None and self.contract.qualname.endswith("<locals>." + fn.name):
+                c = self.contract       # recursive call of the nested function under verification
+            if c is None and ".<locals>." in self.contract.qualname:
+                c = self.reg.contracts.get((self.module.rel, "%s.<locals>.%s" % (self.contract.qualname.rsplit(".<locals>.", 1)[0], fn.name)))
             if c is not None and not c.inline:
                 # free variables are passed as extra (ghost) parameters taken from the current environment
                 extra = dict((k, self.lookup(k, st)) for k in c.free)
@@ -755,6 +763,9 @@ class CallMixin(object):
             return []
         return [(ok, core.mget(recv, k), core.mremove(recv, k))]
 
+    def m_map_clear(self, recv, args, kw, st, node):
+        return [(st, NONEV, core.mempty(recv.ty.k, recv.ty.v))]
+
     def m_map_keys(self, recv, args, kw, st, node):
         return [(st, core.mdom(recv))]
 
@@ -930,7 +941,15 @@ class CallMixin(object):
                 for st1, args in self.ev_list(node.args, st):
                     lo, hi = (mk_int(0), args[0]) if len(args) == 1 else (args[0], args[1])
                     if len(args) > 2:
-                        raise OutsideSubset("range step")
+                        stp = z3.simplify(coerce(args[2], INT).t)
+                        if not (z3.is_int_value(stp) and stp.as_long() == -1):
+                            raise OutsideSubset("range step other than -1")
+                        r = fresh(List(INT), "rangedown")
+                        st1 = st1.copy()
+                        n = z3.If(lo.t > hi.t, lo.t - hi.t, z3.IntVal(0))
+                        st1.assume(core.llen(r) == n, core.forall_int(0, n, lambda j: z3.Select(core.larr(r), j) == lo.t - j))
+                        res.append((st1, r))
+                        continue
                     r = fresh(List(INT), "range")
                     st1 = st1.copy()
                     n = z3.If(hi.t > lo.t, hi.t - lo.t, z3.IntVal(0))
